@@ -99,23 +99,6 @@ def labels(ctx, report):
                          {"uses": uses, "mismatches": bad}, "2")
     if n < 6:
         raise AnalysisError(f"R-LABEL: only {n} language loops with lookups found (floor 6)")
-    # DFXP reader: the list stored under a language is built from the div that carried the label
-    rd = ctx.index.get_function("pycaption/dfxp/base.py", "DFXPReader.read")
-    report.covered(rd)
-    loops = [l for l in walk_no_nested(rd.node) if isinstance(l, ast.For) and "find_all('div')" in src(l.iter)]
-    if len(loops) != 1:
-        raise AnalysisError("DFXPReader.read: loop over divs not found")
-    lp = loops[0]
-    D = src(lp.target)
-    st = [n for n in walk_no_nested(lp) if isinstance(n, ast.Assign) and isinstance(n.targets[0], ast.Subscript)
-          and src(n.targets[0].value) == "caption_dict"]
-    lang_def = [n for n in lp.body if isinstance(n, ast.Assign) and isinstance(n.targets[0], ast.Name)
-                and "xml:lang" in src(n.value)]
-    ok = len(st) == 1 and len(lang_def) == 1 and src(st[0].targets[0].slice) == src(lang_def[0].targets[0]) \
-        and re.fullmatch(rf"self\._convert_div_to_caption_list\({re.escape(D)}\)", src(st[0].value)) \
-        and src(lang_def[0].value).startswith(f"{D}.attrs.get('xml:lang'")
-    report.check(bool(ok), "R-LABEL", (rd, lp), "each div's captions are stored under that div's own language",
-                 {"label": [short(x) for x in lang_def], "store": [short(x) for x in st]}, "2")
     # SAMI reader: paragraphs are selected with the language they are stored under
     tl = ctx.index.get_function("pycaption/sami.py", "SAMIReader._translate_lang")
     sel = [c for c in walk_no_nested(tl.node) if isinstance(c, ast.Call) and isinstance(c.func, ast.Attribute)
@@ -126,54 +109,78 @@ def labels(ctx, report):
 
 
 def dfxp_fallback(ctx, report):
-    rd = ctx.index.get_function("pycaption/dfxp/base.py", "DFXPReader.read")
-    lp = [l for l in walk_no_nested(rd.node) if isinstance(l, ast.For) and "find_all('div')" in src(l.iter)][0]
-    lang_def = [n for n in lp.body if isinstance(n, ast.Assign) and "xml:lang" in src(n.value)][0]
-    call = lang_def.value
-    ok_shape = isinstance(call, ast.Call) and len(call.args) == 2
-    if not ok_shape:
-        raise AnalysisError("DFXPReader.read: div language lookup shape not recognised")
-    default_expr = call.args[1]
-    # the fallback must be loop-invariant: defined once before the loop from the tt element
-    inside = {n.targets[0].id for n in walk_no_nested(lp) if isinstance(n, ast.Assign) and isinstance(n.targets[0], ast.Name)}
-    inside |= {lp.target.id} if isinstance(lp.target, ast.Name) else set()
-    names = {n.id for n in ast.walk(default_expr) if isinstance(n, ast.Name)}
-    variant = sorted(names & inside)
-    resolved = src(resolve_local(rd, default_expr))
-    ok = not variant and re.search(r"\.tt\.attrs\.get\('xml:lang', DEFAULT_LANGUAGE_CODE\)", resolved) is not None
-    report.check(ok, "R-FALLBACK", (rd, lang_def), "a div without xml:lang takes the document language, then the configured default",
-                 {"fallback": src(default_expr), "resolves_to": resolved,
-                  "depends_on_loop_state": variant}, "3")
+    from . import dfxp_read_fold
+    dfxp_read_fold.run(ctx, report)
     wr = ctx.index.get_function("pycaption/dfxp/base.py", "DFXPWriter.write")
     tests = [n for n in walk_no_nested(wr.node) if isinstance(n, ast.If) and src(n.test) == "force in langs"]
     ok = len(tests) == 1 and any(isinstance(s, ast.Assign) and src(s) == "langs = [force]" for s in tests[0].body)
     report.check(ok, "R-GUARD", wr, "force selects a language only when the set has it; otherwise all languages are written",
                  [short(t) for t in tests], "3")
     lg = ctx.index.get_function("pycaption/dfxp/extras.py", "LegacyDFXPWriter._force_language")
-    t = src(lg.node)
-    ok = "if force == lang:" in t and "return lang" in t
-    report.check(ok, "R-GUARD", lg, "the legacy writer returns the forced language only on an exact match", None, "3")
+    report.covered(lg)
+    from ..core.constfold import Folder, Stub, FoldRaise
+    folder = ctx.memo("folder", lambda: Folder(ctx.index))
+    pool = ["en-US", "fr", "de", "es"]
+    bad = []
+    n = 0
+    for k in range(1, 5):
+        langs = pool[:k]
+        for force in langs + ["en", "", "xx"]:
+            n += 1
+            try:
+                got = folder.call_function(lg, [force, list(langs)], {}, self_value=Stub("writer", {}, cls=lg.cls))
+            except FoldRaise as e:
+                got = f"raises {e.exc_name}"
+            except AnalysisError as e:
+                raise AnalysisError(f"LegacyDFXPWriter._force_language cannot be folded: {e}")
+            if (force in langs and got != force) or (force not in langs and got not in langs):
+                bad.append({"force": force, "languages": langs, "selected": got})
+    report.check(not bad, "R-GUARD", lg, "the legacy writer returns the forced language only on an exact match",
+                 {"folded_calls": n, "wrong_selections": bad[:3]}, "3")
 
 
 def webvtt_lang(ctx, report):
+    """WebVTTWriter.write folded on a stub caption set that records which language is asked for"""
+    from ..core.constfold import Folder, Stub, FoldRaise
+    folder = ctx.memo("folder", lambda: Folder(ctx.index))
     fn = ctx.index.get_function("pycaption/webvtt.py", "WebVTTWriter.write")
     report.covered(fn)
-    rebinds = [n for n in walk_no_nested(fn.node) if isinstance(n, ast.Assign) and src(n.targets[0]) == "lang"]
-    guards = []
-    for rb in rebinds:
-        g = None
-        for n in walk_no_nested(fn.node):
-            if isinstance(n, ast.If) and rb in n.body:
-                g = src(n.test)
-        guards.append(g)
-    ok = len(rebinds) == 1 and guards == ["lang is None"] and src(rebinds[0].value) == "caption_set.get_languages()[0]"
-    report.check(ok, "R-GUARD", fn, "the lang option is replaced by the first language only when it was not given",
-                 {"rebinding": [short(r) for r in rebinds], "guards": guards}, "4")
-    calls = [c for c in walk_no_nested(fn.node) if isinstance(c, ast.Call) and isinstance(c.func, ast.Attribute)
-             and c.func.attr in ("get_captions", "get_layout_info")]
-    ok = len(calls) == 2 and all(src(c.args[0]) == "lang" for c in calls)
-    report.check(ok, "R-LABEL", fn, "captions and layout are looked up for exactly the selected language",
-                 [short(c) for c in calls], "4")
+    langs = ["en-US", "fr", "de"]
+    wrong_default, wrong_named, wrong_lookup = [], [], []
+    n = 0
+    for given in [None] + langs + ["xx"]:
+        asked = []
+
+        def mk():
+            st = Stub("caption_set", {}, methods={
+                "is_empty": lambda: False, "get_languages": lambda: list(langs),
+                "get_layout_info": lambda l: asked.append(("layout", l)),
+                "get_captions": lambda l: asked.append(("captions", l)) or [],
+                "get_styles": lambda: [], "get_style": lambda *_a: {}})
+            return st
+        cs = mk()
+        n += 1
+        try:
+            folder.call_function(fn, [cs] + ([] if given is None else [given]), {}, self_value=Stub("writer", {}, cls=fn.cls))
+        except FoldRaise as e:
+            asked.append(("raises", e.exc_name))
+        except AnalysisError as e:
+            raise AnalysisError(f"WebVTTWriter.write cannot be folded on a stub caption set: {e}")
+        cap = [l for k, l in asked if k == "captions"]
+        other = [l for k, l in asked if k == "layout"]
+        want = langs[0] if given is None else given
+        if given is None and cap != [want]:
+            wrong_default.append({"lang": given, "captions_requested_for": cap})
+        if given is not None and cap != [want]:
+            wrong_named.append({"lang": given, "captions_requested_for": cap})
+        if any(l != want for l in other):
+            wrong_lookup.append({"lang": given, "layout_requested_for": other})
+    report.check(not wrong_default and not wrong_named, "R-GUARD", fn,
+                 "the lang option is replaced by the first language only when it was not given",
+                 {"folded_calls": n, "without_lang": wrong_default[:2], "with_lang": wrong_named[:2]}, "4")
+    report.check(not wrong_lookup and not wrong_named, "R-LABEL", fn,
+                 "captions and layout are looked up for exactly the selected language",
+                 {"folded_calls": n, "wrong_lookups": (wrong_lookup + wrong_named)[:3]}, "4")
 
 
 def sami_neighbours(ctx, report):
